@@ -343,6 +343,19 @@ def fault_history_scenarios(res, note):
             router.register_client(snd)
             if faulty == "client":
                 router.register_client(BadClient())
+            if faulty == "client" and k == 1:
+                # the faulty delivery itself: a request that is also relayed to a client whose handler raises is still
+                # handed to every accepting device exactly once
+                for dname in ("A", None):
+                    del got[:]
+                    try:
+                        router.process_message(M.GetProperties(version="1.7", device=dname), sender=snd)
+                    except RuntimeError:
+                        pass
+                    res["transitions"] += 1
+                    res["sends"] += 1
+                    if got != ["GetProperties"]:
+                        note("device-delivery", "while-a-client-fails", "getProperties device=%r relayed to a failing client: device A got %r" % (dname, got), {"kind": "real-endpoints"})
             escaped = 0
             for _ in range(k):
                 try:
